@@ -41,7 +41,7 @@ def check(c, item):
     try:
         with warnings.catch_warnings():
             warnings.simplefilter('ignore')
-            m = to_model(sp)
+            m = to_model(sp) if not sp.get('shared_delay_dict') else shared_delay_model(sp)
             try:
                 m.write_sbml_model(path, stochastic_model=stochastic)
                 m.write_sbml_model(path2, stochastic_model=stochastic)
@@ -154,14 +154,45 @@ def check(c, item):
                 os.remove(p)
 
 
+def shared_delay_model(sp):
+    """the caller re-uses ONE delay-parameter dictionary object for successive create_reaction calls, changing the value in between"""
+    from ..modelspec import reaction_tuple
+    m = to_model(dict(sp, reactions=[]))
+    shared = {}
+    for r in sp['reactions']:
+        t = list(reaction_tuple(r))
+        if len(t) == 8:
+            shared.clear(); shared.update(t[7])
+            t[7] = shared
+        m.create_reaction(*t)
+    m.py_initialize()
+    return m
+
+
+def shared_delay_specs():
+    from ..nets import spec, ma
+    x0 = {'A': 2.0, 'B': 3.0, 'C': 1.5}
+    out = []
+    for typ, vals in (('fixed', [dict(delay=1.0), dict(delay=2.5), dict(delay=4.0)]),
+                      ('gaussian', [dict(mean=5.0, std=0.2), dict(mean=9.0, std=0.5)]),
+                      ('gamma', [dict(k=2.0, theta=0.1), dict(k=3.5, theta=0.4)])):
+        rxs = []
+        for i, v in enumerate(vals):
+            rxs.append(dict(ma([FAM.SP[i % 3]], [], 0.5 + i), delay=dict(v, type=typ, reactants=[], products=[FAM.SP[(i + 1) % 3]])))
+        s_ = spec('shared-delay-dict/' + typ, FAM.SP, x0, rxs, FAM.PARAMS)
+        s_['shared_delay_dict'] = True
+        out.append(s_)
+    return out
+
+
 def run(ctx):
-    specs = FAM.single_reaction_specs(ctx.tier) + FAM.rule_specs(ctx.tier) + FAM.multi_specs(ctx.tier)
+    specs = FAM.single_reaction_specs(ctx.tier) + FAM.rule_specs(ctx.tier) + FAM.multi_specs(ctx.tier) + shared_delay_specs()
     items = [(s, st) for s in specs for st in (False, True)]
     pmap(check, items, ctx, nshards=256)
     ctx.bounds = dict(models=len(specs), round_trips=len(items))
     ctx.rule = ('E2: the model family of C14 plus delays (fixed / Gaussian / Gamma x numeric / named parameters x delayed reactant and product '
                 'lists of length 0..2), every rule set of <= 2 rules from {additive, assignment to species, assignment to parameter} x '
-                '{repeated, start, dt, "0.5", 0.5}, and ordered triples from a 7-reaction menu over species whose sort order differs from '
+                '{repeated, start, dt, "0.5", 0.5, 0, 0.0}, models whose delayed reactions were created with one re-used delay-parameter dictionary, and ordered triples from a 7-reaction menu over species whose sort order differs from '
                 'their declaration order; each written (deterministic and stochastic export) and read back by the real code. Compared: species '
                 'and values, parameter values, both stoichiometric matrices aligned by name, every rate in deterministic / stochastic / volume '
                 '/ stochastic-volume form at 6 states (H2), delay class and the delay drawn under one scripted stream, rule behaviour through '
